@@ -1,4 +1,5 @@
 #!/bin/bash
+export VERIF_SCRATCH_EVIDENCE=${VERIF_SCRATCH_EVIDENCE:-/tmp/verif_seed_evidence}   # evidence of runs against a seeded tree is not evidence about /repo
 # seed_matrix.sh: run every check against every seeded change (applied to /repo, undone afterwards);
 # writes /verif/seeded/matrix.tsv: seed <TAB> check <TAB> exit <TAB> violations <TAB> nofailing <TAB> known
 # usage: seed_matrix.sh            all seeds, matrix.tsv rewritten
